@@ -22,3 +22,38 @@ package types
 
 //@ contract (Height).IsZero
 //@   ensures result == (h.RevisionNumber == 0 && h.RevisionHeight == 0)
+
+//@ contract (Height).LTE
+//@   let o = dyn(other, Height)
+//@   requires isType(other, Height)
+//@   ensures result == (hcmp(h.RevisionNumber, h.RevisionHeight, o.RevisionNumber, o.RevisionHeight) <= 0)
+
+//@ contract (Height).GT
+//@   let o = dyn(other, Height)
+//@   requires isType(other, Height)
+//@   ensures result == (hcmp(h.RevisionNumber, h.RevisionHeight, o.RevisionNumber, o.RevisionHeight) == 1)
+
+//@ contract (Height).GTE
+//@   let o = dyn(other, Height)
+//@   requires isType(other, Height)
+//@   ensures result == (hcmp(h.RevisionNumber, h.RevisionHeight, o.RevisionNumber, o.RevisionHeight) >= 0)
+
+//@ contract (Height).EQ
+//@   let o = dyn(other, Height)
+//@   requires isType(other, Height)
+//@   ensures result == (h.RevisionNumber == o.RevisionNumber && h.RevisionHeight == o.RevisionHeight)
+
+//@ contract (Height).String
+//@   ensures result == dec(h.RevisionNumber) + "-" + dec(h.RevisionHeight)
+
+//@ contract ParseHeight
+//@   ensures err == nil ==> contains(heightStr, "-")
+//@   ensures err != nil ==> result.RevisionNumber == 0 && result.RevisionHeight == 0
+
+//@ contract (Height).Decrement
+//@   ensures result1 == (h.RevisionHeight != 0)
+//@   ensures result1 ==> isType(result0, Height) && dyn(result0, Height).RevisionNumber == h.RevisionNumber && dyn(result0, Height).RevisionHeight == h.RevisionHeight - 1
+
+//@ contract (Height).Increment
+//@   ensures isType(result, Height) && dyn(result, Height).RevisionNumber == h.RevisionNumber
+//@   ensures h.RevisionHeight + 1 < 18446744073709551616 ==> dyn(result, Height).RevisionHeight == h.RevisionHeight + 1
